@@ -57,6 +57,9 @@ class C06(flow.Spec):
                 win.append(pc.page_of(i0, i1, rng.randrange(512), rng.randrange(512)))
             else:
                 win.append(pc.page_of(rng.randrange(96, 128), rng.randrange(512), rng.randrange(512), rng.randrange(512)))
+        if pc.low_pages_viewable() and rng.random() < 0.3:
+            # boundary pages of the address space: page 0 (nil-pointer page), 1, 15
+            win += [rng.choice([0, 0, 1, 15])]
         outside = [pc.page_of(rng.choice([0, 1, 200, 256, 300, 510]), rng.randrange(512), rng.randrange(512), rng.randrange(512)) for _ in range(2)]
         outside.append(pc.TEMP_PAGE)
         slots = {}
@@ -109,7 +112,15 @@ class C06(flow.Spec):
                     # random addresses: never inside a copy-on-write page of the window
                     if any((addr >> 12) & M36 == w & M36 for w in win):
                         addr = 0
-                ops.append([13, addr, rng.choice([0, 1, 2, 3, 4, 7, 8, 16, rng.randrange(32)])])
+                ec = rng.choice([0, 1, 2, 3, 4, 7, 8, 16, rng.randrange(32)])
+                if rng.random() < 0.5:
+                    # the interrupted register context is arbitrary: stack / instruction pointers near the fault address
+                    rsp = rng.choice([addr, (addr + 1) & M64, (addr + 8) & M64, (addr + 4096) & M64, ((addr | 0xfff) + 1) & M64,
+                                      (addr - 8) & M64, 0, M64, rng.randrange(1 << 64)])
+                    rip = rng.choice([addr, 0, rng.randrange(1 << 64)])
+                    ops.append([19, addr, ec, rsp, rip])
+                else:
+                    ops.append([13, addr, ec])
             elif r < 0.66 and zf:
                 # the mapping interface asked for a writable zero frame
                 m = rng.random()
@@ -174,7 +185,7 @@ class C06(flow.Spec):
                 if zset and o[1] == zf:
                     continue
                 sim.need(pc.TEMP_PAGE)
-            elif o[0] == 13:
+            elif o[0] in (13, 19):
                 e = leaf.get((o[1] >> 12) & M36)
                 if e and e[1] & P and e[1] & COW and not e[1] & RW:
                     sim.consumed += 1
@@ -215,7 +226,7 @@ class C06(flow.Spec):
 
     def nontrivial(self, nums, obs):
         r = pc.parse(nums)
-        return bool(r) and any(o[0] == 13 for o in r[4]) and obs[-1] != 'ee'
+        return bool(r) and any(o[0] in (13, 19) for o in r[4]) and obs[-1] != 'ee'
 
     def shrink_candidates(self, nums):
         return pc.shrink_candidates(nums)
